@@ -164,7 +164,7 @@ func (w *workerProc) readLine() (string, error) {
 	mu.Lock()
 	limit := 3 * hangAfter
 	if workerHangs >= 2 {
-		limit = hangAfter // after two confirmed ones a silent worker is taken at face value sooner
+		limit = hangAfter / 2 // after two confirmed ones a silent worker is taken at face value sooner
 	}
 	mu.Unlock()
 	select {
@@ -315,7 +315,13 @@ func writeFiles(dir string, files map[string]string) error {
 
 // runBinary runs thriftgo in dir; anything it writes lands under dir/out or dir/gen-*.
 func runBinary(bin, dir string, args []string) obs {
-	o := runBinaryT(bin, dir, args, hangAfter)
+	retryMu.Lock()
+	first := hangAfter
+	if hangsConfirmed >= 2 {
+		first = hangAfter / 2
+	}
+	retryMu.Unlock()
+	o := runBinaryT(bin, dir, args, first)
 	if o.Hang {
 		// The machine may be busy (a Go stack overflow has to touch 1 GB first): a run counts as a hang
 		// only if, run again (retries are serialised), it also exceeds 3x the bound.
@@ -516,32 +522,34 @@ func run(repo, dir string, seed uint64, tier string) error {
 	tIn := time.Now()
 	const nw = 8
 	var firstErr error
-	parallel(nw, nw, func(w int) {
-		var dirs, mains []string
-		var idx []int
-		for i := w; i < len(jobs); i += nw {
-			if jobs[i].c.Pos == "cmdline" {
-				continue
+	var inWall int
+	inDone := make(chan struct{})
+	go func() { // runs alongside the binary phase: the two do not depend on each other
+		defer close(inDone)
+		parallel(nw, nw, func(w int) {
+			var dirs, mains []string
+			var idx []int
+			for i := w; i < len(jobs); i += nw {
+				if jobs[i].c.Pos == "cmdline" {
+					continue
+				}
+				dirs = append(dirs, jobs[i].dir)
+				mains = append(mains, jobs[i].c.Prog.Files[0].Path)
+				idx = append(idx, i)
 			}
-			dirs = append(dirs, jobs[i].dir)
-			mains = append(mains, jobs[i].c.Prog.Files[0].Path)
-			idx = append(idx, i)
-		}
-		res, err := evalInProcess(dirs, mains)
-		mu.Lock()
-		defer mu.Unlock()
-		if err != nil {
-			firstErr = err
-			return
-		}
-		for k, i := range idx {
-			jobs[i].ip = res[k]
-		}
-	})
-	if firstErr != nil {
-		return firstErr
-	}
-	out.Stats["inprocess_wall_ms"] = int(time.Since(tIn).Milliseconds())
+			res, err := evalInProcess(dirs, mains)
+			mu.Lock()
+			defer mu.Unlock()
+			if err != nil {
+				firstErr = err
+				return
+			}
+			for k, i := range idx {
+				jobs[i].ip = res[k]
+			}
+		})
+		inWall = int(time.Since(tIn).Milliseconds())
+	}()
 	// the binary
 	type unit struct {
 		j  *job
@@ -578,6 +586,11 @@ func run(repo, dir string, seed uint64, tier string) error {
 		u.j.obs[u.be] = o
 		mu.Unlock()
 	})
+	<-inDone
+	if firstErr != nil {
+		return firstErr
+	}
+	out.Stats["inprocess_wall_ms"] = inWall
 	fmt.Fprintf(os.Stderr, "c04: %d cases, %d binary runs in %v\n", len(jobs), len(units), time.Since(t0).Round(time.Millisecond))
 	out.Stats["binary_runs"] = len(units)
 	out.Stats["binary_wall_ms"] = int(time.Since(t0).Milliseconds())
@@ -790,18 +803,18 @@ func minimise(bin, scratch string, j *job, be, class string) vl.OracleFail {
 			}
 			return d
 		}
-		// two cheap attempts first: drop everything the edit did not touch; the same but keep include lines
+		// include lines are never dropped: the edited file has to stay reachable, otherwise "accepted"
+		// would survive for the wrong reason (the violation would no longer be part of the program)
 		var nonInc []lineRef
 		for _, rf := range cand {
 			if !strings.HasPrefix(ls[rf.path][rf.idx], "include ") {
 				nonInc = append(nonInc, rf)
 			}
 		}
-		for _, attempt := range [][]lineRef{cand, nonInc} {
-			if test(with(attempt)) {
-				dropped = with(attempt)
-				break
-			}
+		cand = nonInc
+		// one cheap attempt first: drop everything the edit did not touch
+		if test(with(cand)) {
+			dropped = with(cand)
 		}
 		var rest0 []lineRef
 		for _, rf := range cand {
@@ -861,7 +874,11 @@ func minimise(bin, scratch string, j *job, be, class string) vl.OracleFail {
 		if class != "crash" && class != "hang" {
 			slim := map[string]string{}
 			for p, t := range files {
-				if strings.TrimSpace(t) != "" || p == c.Prog.Files[0].Path {
+				referenced := false
+				for _, t2 := range files {
+					referenced = referenced || strings.Contains(t2, `include "`+p+`"`)
+				}
+				if strings.TrimSpace(t) != "" || p == c.Prog.Files[0].Path || referenced {
 					slim[p] = t
 				}
 			}
